@@ -55,6 +55,9 @@ class C12(Prop):
             maps = self.maps[n]
             pick = maps if (n == 1 or thorough) else rng.sample(maps, 2500)
             for i, m in enumerate(pick):
+                if i % 6 == 0:
+                    # rank arguments of numpy integer types
+                    yield {"k": "tostate", "m": m, "rarg": 1 + i % n if n > 1 else 1, "rtype": ("int64", "int32", "uint8", "intp")[(i // 6) % 4], "pkg": "py"}
                 for rarg in [None] + list(range(n + 1)):
                     s = {"k": "tostate", "m": m, "rarg": rarg}
                     if n == 2 and i % 12:
@@ -134,10 +137,14 @@ class C12(Prop):
         for n in (1, 2, 3, 4, 5):
             for name in ("zero", "one", "ghz", "mixed"):
                 yield {"k": "ctor", "name": name, "n": n}
+                yield {"k": "ctor", "name": name, "n": n, "ntype": ("int64", "int32", "uint8", "intp")[n % 4], "pkg": "py"}
             for t in range(6):
                 yield {"k": "randctor", "name": "random_bit", "n": n, "seed": self.seed + 17 * t + n, "pkg": "py"}
                 for rarg in (None, 1):
                     yield {"k": "randctor", "name": "random_pauli", "n": n, "seed": self.seed + 19 * t + n, "rarg": rarg}
+                    if rarg is not None and t == 0:
+                        yield {"k": "randctor", "name": "random_pauli", "n": n, "seed": self.seed + 19 * t + n, "rarg": rarg, "rtype": "uint8", "pkg": "py"}
+                        yield {"k": "randctor", "name": "random_clifford", "n": n, "seed": self.seed + 23 * t + n, "rarg": rarg, "rtype": "int64", "pkg": "py"}
                     yield {"k": "randctor", "name": "random_clifford", "n": n, "seed": self.seed + 23 * t + n, "rarg": rarg}
 
     def execute(self, scn, be):
@@ -149,6 +156,20 @@ class C12(Prop):
                 rec["m"] = scn["m"]
                 rec["rarg"] = scn["rarg"] or 0
                 M = be.cmap(scn["m"])
+                if scn.get("rtype"):
+                    import numpy
+                    rec["rtype"] = scn["rtype"]
+                    rv = getattr(numpy, scn["rtype"])(scn["rarg"])
+                    S = M.to_state(rv)
+                    rec["post"] = be.p_state(S)
+                    C2 = S.copy()                        # the rank survives a copy
+                    rec["back"] = be.p_list(S.to_map())
+                    rec["m1"] = be.p_list(M)
+                    rec2 = {"op": "tostate", "m": scn["m"], "rarg": scn["rarg"], "rtype": scn["rtype"] + ":copy", "post": be.p_state(C2)}
+                    S2 = M.to_state()
+                    S2.set_r(rv)
+                    rec3 = {"op": "tostate", "m": scn["m"], "rarg": scn["rarg"], "rtype": scn["rtype"] + ":set_r", "post": be.p_state(S2)}
+                    return [rec, rec2, rec3]
                 S = M.to_state() if scn["rarg"] is None else M.to_state(scn["rarg"])
                 rec["post"] = be.p_state(S)
                 rec["back"] = be.p_list(S.to_map())
@@ -172,13 +193,22 @@ class C12(Prop):
             elif k == "ctor":
                 rec["name"], rec["n"] = scn["name"], scn["n"]
                 f = {"zero": St.zero_state, "one": St.one_state, "ghz": St.ghz_state, "mixed": St.maximally_mixed_state}[scn["name"]]
-                S = f(scn["n"])
+                if scn.get("ntype"):
+                    import numpy
+                    rec["ntype"] = scn["ntype"]
+                    S = f(getattr(numpy, scn["ntype"])(scn["n"]))
+                else:
+                    S = f(scn["n"])
                 if not hasattr(S, "r"):
                     raise TypeError("constructor returned %s" % type(S).__name__)
                 rec["post"] = be.p_state(S)
             elif k == "randctor":
                 rec["name"], rec["n"] = scn["name"], scn["n"]
                 rec["rarg"] = scn.get("rarg") or 0
+                if scn.get("rtype"):
+                    import numpy
+                    rec["rtype"] = scn["rtype"]
+                    scn = dict(scn, rarg=getattr(numpy, scn["rtype"])(scn["rarg"]))
                 be.seed(scn["seed"])
                 if scn["name"] == "random_bit":
                     S = St.random_bit_state(scn["n"])
